@@ -492,6 +492,15 @@ CLI_BAD = [["--lat", "abc", "--long", "4"], ["--lat", "52"], ["--long", "4"], ["
            ["--lat", "52", "--long", "4", "--log-folder", "/proc/nope/x"], ["--lat", "52", "--long", "4", "--log-folder", "/etc/passwd"]]
 
 
+# legal option values nobody passes on an ordinary day: a zoom of nothing, negative, not a number, beyond any map; a receiver
+# range of nothing, negative, without bound; named places at the poles, on the date line, nowhere (not a number), with no
+# name or a very long one; a time-zone filter without a table to filter
+CORNER_OPTIONS = [["--scale=0"], ["--scale=-1"], ["--scale=nan"], ["--scale=1e300"], ["--scale=inf"], ["--scale=-inf"], ["--scale=1e-300"],
+                  ["--max-range=nan"], ["--max-range=-1"], ["--max-range=inf"], ["--max-range=-inf"],
+                  ["--locations", "(x,nan,nan)", "(N,90,180)", "(S,-90,-180)", "(,0,0)", "(" + "a very long name " * 8 + "\u00fc\u00e9,52.1,4.1)"],
+                  ["--airports-tz-filter", "Europe/Amsterdam"], ["--scale=0", "--max-range=0", "--disable-track", "--disable-heading"]]
+
+
 def cli_pty_event(bindir, args, tag):
     """an invalid option value that is only looked at after the connection is up (a file to read): run in a pty against a
     live feed, because what matters is also the state the terminal is left in"""
@@ -537,8 +546,15 @@ def run(prop, tier, seed, rep):
         if i == 1:
             st = st[4:] + st[:4]
         stale.append(dict(steps=st, tag=f"stale{i}", size=(24, 80), touch=touch, filter_time=120, quit_at_end=True))
+    # option values at the far ends of what the command line accepts (every one a legal value: the client must run, take
+    # the same operator actions and leave by the quit key like with any other)
+    corner = []
+    for i, opts in enumerate(CORNER_OPTIONS):
+        j = random_session(rng, 5000 + i)
+        j.update(options=list(opts), tag=f"corner{i}", quit_at_end=True)
+        corner.append(j)
     # several aircraft at one spot (one coverage cell is hit again and again), every tab visited, for a while
-    jobs = msess + rsess + stale + [dict(steps=[("frame",), ("samespot", 3), ("key", "F2"), ("wait", 1.0), ("key", "F3"), ("key", "F2"), ("wait", 0.6),
+    jobs = msess + rsess + stale + corner + [dict(steps=[("frame",), ("samespot", 3), ("key", "F2"), ("wait", 1.0), ("key", "F3"), ("key", "F2"), ("wait", 0.6),
                                                  ("key", "F4"), ("key", "F1"), ("key", "F2"), ("frame",)],
                                           tag="samespot0", size=(30, 100), touch=False, filter_time=120, quit_at_end=True)]
 
@@ -598,7 +614,7 @@ def run(prop, tier, seed, rep):
         job = jobs[si] if si < len(jobs) else {"tag": "cli"}
         for owner, field in v["pairs"]:
             k = f"{owner}|{v['cls']}|{field}"
-            cls = re.sub(r"(model|random|stale|samespot)\d+", r"\1", v["cls"])
+            cls = re.sub(r"(model|random|stale|samespot|corner)\d+", r"\1", v["cls"])
             summary.setdefault(k, [0, ev.get("panic_text", ev.get("stderr", ""))])[0] += 1
             w = {"kind": "ui", "event": {k2: ev[k2] for k2 in ev if k2 not in ("planes",)}}
             if "steps" in job:
@@ -615,7 +631,7 @@ def run(prop, tier, seed, rep):
     for e in events:
         kinds[e["ev"]] = kinds.get(e["ev"], 0) + 1
     rep.extra.update({"sessions": len(jobs), "sessions_from_bounded_model": len(msess), "model_behaviours_available": nmodel,
-                      "events_by_kind": kinds, "cli_invocations": len(CLI_BAD), "model_drift": len(drifts),
+                      "events_by_kind": kinds, "cli_invocations": len(CLI_BAD), "sessions_with_corner_option_values": len(CORNER_OPTIONS), "model_drift": len(drifts),
                       "steps_explained_by_handler_tables": sum(kinds.get(k, 0) for k in ("key", "mouse", "draw")) - len(drifts),
                       "sessions_ending_with_quit": sum(1 for r in results if r[-1]["quit_sent"] == 1),
                       "terminal_sizes": sorted({str(j["size"]) for j in jobs if "size" in j})})
